@@ -1,15 +1,73 @@
 (* C14 — dispatch I/O delivers every byte once, in order; each operation completes once.
-   Model: Model/IoOp.v (one operation's life: perform / deliver_data / result tables / dispose / get_error; the stream's
-   operation lists).  Every theorem quantifies over ALL event sequences: any system call results (partial transfers, EAGAIN,
+   Model: Model/IoOp.v = three hand-written models after src/io.c:
+     (A) one operation's life (perform / deliver_data / result tables / dispose / get_error), tied EVENT BY EVENT to the
+         library: the system call results recorded by the guarded note are replayed and every handler invocation
+         (done, size, error) must be reproduced (lib/props/c14.py, explain_op);
+     (B) the stream's operation lists (pick_next / complete_op / cleanup_ops) and
+     (C) the channel's barrier_queue / barrier_group bookkeeping (bstep):
+         (B) and (C) are NOT replayed; their consequences are checked by the end-to-end oracle on every run.
+   Every theorem quantifies over ALL event sequences of its model: any system call results (partial transfers, EAGAIN,
    EINTR, EOF, errors), any placement of close / stop / timer ticks / cleanup between the steps of the handler.
-   Proved here: read conservation + high water, completion flush, write conservation, done exactly once and last, low
-   water (as coded), ECANCELED after close/stop, per-channel FIFO completion of stream operations over the stream's
-   operation lists (cleanup included) with I/O on one operation at a time, and the barrier clause over the channel's
-   barrier_queue / barrier_group bookkeeping.
-   Used as semantics, not re-proved here: serial queues are FIFO and run one block at a time (C02), a suspended queue runs
-   nothing (C06), the group counts outstanding enters and submits a notification registered at count zero at once (C07).
-   NOT proved: C14_cleanup_once_after_handlers (fd_entry reference counting and the close_queue resume chain); it is
-   checked by the end-to-end oracle of lib/props/c14.py on every run. *)
+
+   REAL invariant proofs: C14_read_conservation, C14_read_completion_flushes, C14_high_water, C14_params_ok,
+     C14_write_conservation, C14_done_exactly_once_last, C14_stream_order, C14_stream_io_one_at_a_time,
+     C14_barrier_between, C14_barrier_runs_between, C14_barrier_not_stranded, C14_no_stuck_read, C14_no_stuck_write,
+     C14_read_completes_when_ready, C14_write_completes_when_ready.
+   DEFINITIONAL (one unfolding of the model, kept because the correspondence ties that very definition to the code):
+     C14_low_water (the `undelivered >= low` test of dd_decide read back; "as coded", not a clause of the property),
+     C14_canceled_when_scheduled_after_close (create_or_enqueue on a flag PARAMETER: that the flag set by a
+       dispatch_io_close issued earlier IS visible when the operation reaches the barrier queue is the FIFO of the channel
+       queue and of the barrier queue (C02), not modelled; the oracle checks it, and found the zero-length case fixed in /repo),
+     C14_canceled_after_stop (phase Idle, stream path, EvCheck / EvCleanup false only),
+     C14_handler_step_enabled (case analysis on step).
+
+   What "done exactly once" means here: C14_done_exactly_once_last is AT MOST once and last, with no hypothesis; that
+   done IS delivered needs progress: C14_no_stuck_* (the handler always has a next step and its next system call asks for
+   >= 1 byte, so a ready descriptor yields progress and a 0 return can only mean EOF) and C14_*_completes_when_ready (a
+   bounded operation whose descriptor is ready at every attempt completes within `length` handler rounds).  An operation on
+   a descriptor that never becomes ready completes only through stop / an error / EOF; that the stream's source re-runs
+   the handler when the descriptor becomes ready is C15/C16 (sources), used, not proved here.
+
+   Handler never re-entered: NO theorem.  It holds by construction plus C02: all invocations of one operation's handler
+   are blocks submitted by dispatch_async to op->op_q, a serial queue the library creates itself (io.c:1090); the model
+   records them as the list s_calls in submission order; that blocks of a serial queue neither overlap nor reorder is
+   C02_slane_callouts_exclusive_partial / C02_slane_fifo_partial (Properties_C02_slane.v).  The oracle checks an
+   in-handler flag on every invocation.
+
+   Stream order, precisely: C14_stream_order is about operations that were put on the stream's list (TAILQ_INSERT_TAIL
+   order, reached from the submission order through three FIFO hops: channel queue, barrier queue, stream queue: C02),
+   on the STREAM path (pipes, sockets); it covers operations that end ECANCELED (cleanup_ops / HPickErr complete them in
+   list order).  "Complete" = _dispatch_stream_complete_operation = the done invocation is SUBMITTED to the operation's own
+   queue; with a serial client queue the done handlers then run in that order (the oracle uses one).  Operations that never
+   reach the list -- zero length or closed/stopped channel at creation (io.c:1063), rejected at _dispatch_operation_enqueue
+   or _dispatch_operation_should_enqueue -- complete at once and DO overtake earlier in-flight operations; the code gives
+   no order for them and neither do the theorem or the oracle (the oracle orders every operation that performed a system
+   call or completed without error, cancelled ones included).  Regular files (fd_entry->stream_ops, disk->operations,
+   advise list) are not modelled: oracle only.
+
+   Barrier, precisely: LDone = dispatch_group_leave in _dispatch_operation_dispose: all I/O of the operation is over and its
+   final handler invocation has been SUBMITTED, not run; the code does not order the barrier block after the earlier
+   operations' handler invocations (different queues) and neither theorem nor oracle claims it.  C14_barrier_runs_between
+   is about the barrier block having RUN (LBar in the log).  The queue semantics are the transition rules of bstep, not
+   hypotheses: the barrier queue is a FIFO list run one block at a time (C02_slane_fifo_partial,
+   C02_slane_callouts_exclusive_partial, C02_slane_earlier_started_have_finished_partial), BRun is enabled only at suspend
+   count 0 (C06_slane_no_start_while_suspended; the barrier block suspends its own queue from inside an item:
+   C06_slane_suspend_from_item_licenses_nothing), dispatch_group_notify at count zero submits at once and the group counts
+   outstanding enters (C07).  BLeave is an environment event: that outstanding operations do complete is (A)'s progress
+   theorems plus the cleanup routing; two routing defects found here (FD_ERR cleanup and the stop cleanup were queued on the
+   barrier queue that a pending barrier keeps suspended: deadlock) are fixed in /repo and are corpus scenarios.
+
+   Disk path (regular files): _dispatch_operation_perform runs on the operation's target queue while the interval timer
+   handler runs on the pick queue.  The model makes perform ONE step; a non-strict tick (deliver_data(op, DOP_DEFAULT) even
+   when op->active, io.c:1239-1243) and the initial delivery may really run concurrently with perform on op->buf /
+   op->buf_len.  This data race is ASSUMED to linearise before or after perform's update (it is benign for DOP_DEFAULT: the
+   state before the update is a fixed point of the delivery); "every interleaving of timer ticks" in the theorems means
+   interleaving at step granularity of the model.
+
+   Excluded by hypothesis: write() returning 0 for a non-zero length (wres_ok; io.c treats it as EOF and would report
+   success), read/write returning more than requested, posix_memalign failure.
+   NOT proved: C14_cleanup_once_after_handlers (fd_entry reference counting and the close_queue resume chain); the
+   convenience APIs dispatch_read / dispatch_write, RANDOM offsets: oracle only / not covered. *)
 From Coq Require Import ZArith List Bool.
 From Verif Require Import Word IoOp IoOp_proofs.
 Import ListNotations.
@@ -141,12 +199,73 @@ Theorem C14_barrier_between : forall a evs id,
 Proof. exact barrier_between. Qed.
 Print Assumptions C14_barrier_between.
 
+(* the same on what HAS happened: a barrier block that has run (LBar in the log) ran after the dispose of every operation
+   submitted before it and before the enqueue of every operation submitted after it *)
+Theorem C14_barrier_runs_between : forall a evs l1 l2 id,
+  brun_ok a b_init evs ->
+  let s := brun a b_init evs in
+  b_log s = l1 ++ LBar id :: l2 ->
+  exists pre post, b_sub s = pre ++ IBar id :: post /\
+    (forall op, In (IEnq op) pre -> In (LDone op) l1) /\
+    (forall op, In (IEnq op) post -> ~ In (LEnq op) l1).
+Proof. exact barrier_runs_between. Qed.
+Print Assumptions C14_barrier_runs_between.
+
 Theorem C14_barrier_not_stranded : forall a evs,
   brun_ok a b_init evs ->
   let s := brun a b_init evs in
   b_notifs s <> [] -> b_out s <> [] \/ b_wake s = 1%nat.
 Proof. exact barrier_not_stranded. Qed.
 Print Assumptions C14_barrier_not_stranded.
+
+(* no stuck state *)
+Theorem C14_handler_step_enabled : forall c s,
+  match s_phase s with
+  | Idle => s_phase (step c s EvCheck) = Picked \/ s_phase (step c s EvCheck) = Completed
+  | Picked => forall rs, exists r, s_phase (step c s (EvPerform rs)) = Performed r
+  | Performed _ => s_phase (step c s EvAct) = Idle \/ s_phase (step c s EvAct) = Completed
+  | Completed => True
+  end.
+Proof. exact handler_step_enabled. Qed.
+Print Assumptions C14_handler_step_enabled.
+
+Theorem C14_no_stuck_read : forall c disk conv len p iv strict evs,
+  1 <= chunk_size c -> read_params_ok p -> 1 <= len ->
+  let s0 := st_init (op_init false disk conv len [] p iv strict) in
+  run_ok c s0 evs = true ->
+  let s := run c s0 evs in
+  (s_phase s = Idle \/ s_phase s = Picked) -> 1 <= req_len c (s_op s).
+Proof. exact no_stuck_read. Qed.
+Print Assumptions C14_no_stuck_read.
+
+Theorem C14_no_stuck_write : forall c disk conv d p iv strict evs,
+  1 <= chunk_size c -> 1 <= p_high p -> 1 <= zlen (flat d) < SIZE_MAX ->
+  let s0 := st_init (op_init true disk conv (zlen (flat d)) d p iv strict) in
+  wrun_ok c s0 evs ->
+  let s := run c s0 evs in
+  (s_phase s = Idle \/ s_phase s = Picked) -> 1 <= req_len c (s_op s).
+Proof. exact no_stuck_write. Qed.
+Print Assumptions C14_no_stuck_write.
+
+(* progress: with a descriptor that is ready at every attempt a bounded operation completes (done is delivered) within
+   `length` rounds of the handler (round = pick, perform, act) *)
+Theorem C14_read_completes_when_ready : forall c disk conv len p iv strict rounds,
+  1 <= chunk_size c -> read_params_ok p -> 1 <= len < SIZE_MAX ->
+  let s0 := st_init (op_init false disk conv len [] p iv strict) in
+  ready_rounds c s0 rounds -> len <= Z.of_nat (length rounds) ->
+  let s := run c s0 (concat (map round rounds)) in
+  s_phase s = Completed /\ done_last (s_calls s).
+Proof. exact read_completes_when_ready. Qed.
+Print Assumptions C14_read_completes_when_ready.
+
+Theorem C14_write_completes_when_ready : forall c disk conv d p iv strict rounds,
+  1 <= chunk_size c -> 1 <= p_high p -> 1 <= zlen (flat d) < SIZE_MAX ->
+  let s0 := st_init (op_init true disk conv (zlen (flat d)) d p iv strict) in
+  ready_rounds c s0 rounds -> zlen (flat d) <= Z.of_nat (length rounds) ->
+  let s := run c s0 (concat (map round rounds)) in
+  s_phase s = Completed /\ done_last (s_calls s).
+Proof. exact write_completes_when_ready. Qed.
+Print Assumptions C14_write_completes_when_ready.
 
 (* non-vacuity: a 200-byte read, low 10, high 64, fed 5 / EAGAIN / 30 / EAGAIN / 64 / 36 / 64 / 1 bytes (the first corpus
    scenario of the harness): hypotheses hold and the model delivers 35, 64, 36, 64 and the final byte with done *)
@@ -183,3 +302,15 @@ Example C14_nonvacuous_write_stream_barrier :
   brun_ok false b_init bevs /\ b_fired (brun false b_init bevs) = [7] /\ b_log (brun false b_init bevs) = [LEnq 1; LDone 1] /\
   b_log (brun false b_init (bevs ++ [BBlock 7; BRun])) = [LEnq 1; LDone 1; LBar 7; LEnq 2].
 Proof. vm_compute. repeat split; auto; intuition discriminate. Qed.
+
+(* progress hypotheses are satisfiable: three ready rounds complete a 3-byte read and a 3-byte write *)
+Example C14_nonvacuous_progress :
+  let c := Build_cfg 4096 false in
+  let p := params_init 4096 1 in
+  let rounds := [[Got [7]]; [Fail 4; Got [8]]; [Got [9]]] in
+  let r0 := st_init (op_init false false false 3 [] p false false) in
+  let w0 := st_init (op_init true false false 3 [[1; 2; 3]] p false false) in
+  ready_rounds c r0 rounds /\ ready_rounds c w0 rounds /\
+  map call_obs (s_calls (run c r0 (concat (map round rounds)))) = [(true, 3, 0)] /\
+  map call_obs (s_calls (run c w0 (concat (map round rounds)))) = [(true, -1, 0)].
+Proof. vm_compute. repeat split; auto; intro X; discriminate X. Qed.
